@@ -880,8 +880,14 @@ def _affinity(pm: PoolModel, ctx) -> None:
            '_get_block does not look up / create under the requested name',
            gb.loc, sample='_blocks.get(dbname) / _new_block(dbname)')
     p = nb.params()[1]
-    txt = norm(nb.node)
-    ok = f'Block({p},' in txt and f'self._blocks[{p}] = block' in txt
+    from .. import shapes as SH
+    from ..model import inline_locals
+    st = SH.subscript_stores(nb.node, 'self._blocks')
+    if not st:
+        raise AnalysisError('C15.R5: _new_block no longer stores into '
+                            '_blocks')
+    ok = all(norm(a.targets[0].slice) == p and inline_locals(
+        nb.node, a.value).startswith(f'Block({p},') for a in st)
     ctx.ob('C15.R5', 'BasePool._new_block:keyed-by-dbname', ok,
            '_new_block registers the block under a different name', nb.loc,
            sample='Block(dbname, ...) stored at _blocks[dbname]')
